@@ -18,7 +18,7 @@ from .common import Check
 from .sched import drive
 
 
-LIMIT_S = 10
+LIMIT_S = 4
 
 
 class _TooLong(BaseException):
@@ -66,6 +66,8 @@ def judge(rec, opts):
                 shape = "entered-via-" + main if main in ("inc", "ren") else ("mixed-chains" if main == "mix1" else "chain")
                 esc = ":autoescape" if rec["cfg"].get("autoescape") else ""
                 out.append((f"inherit:{f['clause']}:{shape}:{lname}:{mode}{esc}", f))
+                if got.get("err") == "DoesNotReturn":
+                    return out      # the other loaders / modes would only wait as long again
     return out
 
 
